@@ -286,13 +286,21 @@ func (e *Engine) VerifyFunction(fn *ssa.Function, ct *Contract, timeoutMs, par i
 				x.frameObligations(unit, ct, env, exit)
 			}
 			for _, ex := range append(append([]string(nil), ct.Observes...), e.ExtraEval...) {
+				alias := ""
+				if i := strings.Index(ex, ":="); i > 0 {
+					alias, ex = strings.TrimSpace(ex[:i]), strings.TrimSpace(ex[i+2:])
+				}
 				pe, err := parseSpecExpr(ex)
 				if err != nil {
 					panic(err)
 				}
 				v := post.eval(pe)
 				for k, l := range v.L {
-					x.C.Observe(fmt.Sprintf("%s.%d", ex, k), l)
+					if alias != "" && len(v.L) == 1 {
+						x.C.Observe(alias, l)
+					} else {
+						x.C.Observe(fmt.Sprintf("%s.%d", ex, k), l)
+					}
 				}
 			}
 		}
